@@ -9,7 +9,8 @@ _T = ["distance_test_exact", "distance_test_overlap", "distance_test_false", "de
 THEOREMS = vcore.theorems_in("SodiumModel/Properties/C13.lean", _T, "Sodium.C13")
 IMPORTS = ["SodiumModel.Properties.C13"] if THEOREMS else ["SodiumModel.Model.Aead"]
 IMPORTS = IMPORTS + ["SodiumModel.Properties.C13Aead"]
-IMPORTS = IMPORTS + ["SodiumModel.Properties.C13Aead2"]
+IMPORTS = IMPORTS + ["SodiumModel.Properties.C13Aead2", "SodiumModel.Properties.C13Aead3"]
+THEOREMS = THEOREMS + vcore.theorems_in("SodiumModel/Properties/C13Aead3.lean", ["specPrims_ok", "gctr_is_xor_keystream", "gcmEncV_is_gcm", "gcm_encrypt_detached_is_sp800_38d", "gcmTagV_is_gcm_tag", "gcm_plaintext_is_gctr"], "Sodium.C13Aead3")
 THEOREMS = THEOREMS + vcore.theorems_in("SodiumModel/Properties/C13Aead2.lean", ['gcm_enc_schedule_ok', 'gcm_dec_schedule_ok', 'gcm_encrypt_mem_all', 'gcm_decrypt_mem_all', 'gcm_encrypt_inplace', 'gcm_decrypt_inplace', 'gcm_encrypt_inplace_eq_disjoint', 'gcm_decrypt_inplace_eq_disjoint', 'gcm_loops_exit', 'gcm_encrypt_ghash_input', 'gcm_decrypt_ghash_input', 'gcm_encrypt_detached_mem', 'gcm_encrypt_limits_path', 'gcm_decrypt_detached_mem', 'toyG_lens', 'gcm_tag_inside_output_differs', 'gcm_mac_over_message_tail_differs'], "Sodium.C13Aead2")
 THEOREMS = THEOREMS + vcore.theorems_in("SodiumModel/Properties/C13Aead.lean", ['chacha_encrypt_mem', 'chacha_encrypt_inplace_eq_disjoint', 'chacha_decrypt_mem', 'chacha_decrypt_inplace_eq_disjoint', 'chacha_decrypt_failure_zeroed', 'chacha_decrypt_verify_only', 'xchacha_encrypt_mem', 'xchacha_decrypt_mem', 'blocks64_sum', 'chacha_partial_overlap_differs', 'real_order_accepts_inplace', 'seeded_C13_6_rejects_inplace', 'seeded_C13_6_accepts_disjoint', 'aegis_encrypt_mem', 'aegis_decrypt_mem', 'aegis_decrypt_failure_zeroed', 'aegis_decrypt_verify_only', 'aegis_encrypt_inplace_eq_disjoint', 'aegis_decrypt_inplace_eq_disjoint', 'aegis128l_blockLens', 'aegis256_blockLens', 'toyV_blockLens', 'aegis_partial_overlap_differs', 'aegis_tag_inside_output_differs', 'gcm_encrypt_mem', 'gcm_decrypt_mem', 'gcm_schedules_ok_a', 'gcm_schedules_ok_b', 'gcm_schedules_ok_c', 'gcm_schedules_ok_below_1024', 'gcm_encrypt_inplace_below_1024', 'gcm_decrypt_inplace_below_1024', 'gcm_store_before_hash_differs', 'gcm_partial_overlap_differs'], "Sodium.C13Aead")
 RULE = ("input and output laid out in one arena at every relative offset -80..+80 (dense) for secretbox easy / open_easy / detached / open_detached (both cipher variants), "
